@@ -51,6 +51,7 @@ package ucon
 //@ func VrfVerifySortition props C01
 //@ nobody
 //@ pure
+//@ assert before call choose: [voter-proof-verified-before-use] err == nil
 
 //@ func (*BlsVerifier).RecoverSignerInfo props C01
 //@ nobody
@@ -104,6 +105,9 @@ package ucon
 //@ func VrfVerifyPriority props C01
 //@ nobody
 //@ pure
+// (its functional clauses are C04's subject and verified there; under C01 one typestate fact is checked on the body: the seat count
+// and the priority are derived from the VRF output only after the proof verified — a credential whose proof does not verify is refused)
+//@ assert before call choose: [proposer-proof-verified-before-use] err == nil
 //@ func GetConsensusDataFromHeader props C01
 //@ nobody
 //@ pure
